@@ -5,12 +5,16 @@ import z3
 
 I, R, B = z3.IntSort(), z3.RealSort(), z3.BoolSort()
 Ref = z3.DeclareSort("Ref")
+Name = z3.DeclareSort("Name")         # symbolic strings used as dictionary keys (only equality matters)
+NAME_NONE = z3.Const("name_None", Name)
+ALIVE0 = z3.Function("alive_at_entry", Ref, B)     # objects that existed when the verified function was entered
 NULL = z3.Const("null", Ref)
-_ctr = itertools.count()
+_ctr = [0]     # fresh-name counter; reset on statement re-execution so that a re-run regenerates the SAME constants (see exec_stmt)
 
 
 def fresh(name, sort):
-    return z3.Const(f"{name}!{next(_ctr)}", sort)
+    _ctr[0] += 1
+    return z3.Const(f"{name}!{_ctr[0]}", sort)
 
 
 def arr(*sorts):
@@ -27,6 +31,11 @@ class FT:
 
 
 OPTSEQ, CALLREF, FUN, PYOBJ, MAP = FT("optseq"), FT("callref"), FT("fun"), FT("pyobj"), FT("map")
+
+
+def NAMEMAP(cls=None):
+    """insertion-ordered dict with symbolic string keys and object values (e.g. name -> error entry)"""
+    return FT("namemap", cls)
 NUM, INT, BOOL, SEQ, MAT, STR, OPQ, OPTNUM = FT("num"), FT("int"), FT("bool"), FT("seq"), FT("mat"), FT("str"), FT("opaque"), FT("optnum")
 
 
@@ -55,6 +64,8 @@ HEAP_SORTS = {
     "optseq": {"": arr(Ref, I, R), "len": arr(Ref, I), "none": arr(Ref, B)},
     # union None | ndarray | callable bound to (owner container): kind 0/1/2
     "map": {"size": arr(Ref, I)},
+    "optrefseq": {"": arr(Ref, I, Ref), "len": arr(Ref, I), "none": arr(Ref, B)},
+    "namemap": {"": arr(Ref, I, Ref), "len": arr(Ref, I), "names": arr(Ref, I, Name)},
     "callref": {"kind": arr(Ref, I), "": arr(Ref, I, R), "len": arr(Ref, I), "owner": arr(Ref, Ref)},
 }
 
@@ -174,9 +185,26 @@ class VMat(V):
         return self.arr[i][j]
 
 
+class VName(V):
+    """a symbolic string (dictionary key); e == NAME_NONE models None for Optional[str] arguments"""
+
+    def __init__(self, e):
+        self.e = e
+
+
+class VNameMap(V):
+    def __init__(self, a, n, names, cls=None):
+        self.arr, self.len, self.names, self.cls = a, n, names, cls
+
+    def has(self, nm):
+        q = z3.Int("q!nm")
+        return z3.Exists([q], z3.And(0 <= q, q < self.len, self.names[q] == nm))
+
+
 class VRefSeq(V):
-    def __init__(self, a, n, cls=None):
+    def __init__(self, a, n, cls=None, none=None):
         self.arr, self.len, self.cls = a, n, cls
+        self.none = z3.BoolVal(False) if none is None else none      # Optional[list of objects]
 
 
 class VTuple(V):
@@ -439,6 +467,16 @@ class Engine:
                 return self.schema[c][field]
         return None
 
+    def alloc(self, st, name, cls):
+        """allocation of a new object by a constructor model: non-null, not among the objects that existed at function entry
+        (alive0), and distinct from every object allocated earlier on this path"""
+        r = VRef(fresh(name, Ref), cls)
+        prev = st.ghost.get("allocated", ())
+        st.assume(z3.And(r.e != NULL, z3.Not(ALIVE0(r.e)), *[r.e != p_ for p_ in prev]))
+        st.ghost = dict(st.ghost)
+        st.ghost["allocated"] = prev + (r.e,)
+        return r
+
     def is_pylist_field(self, cls, field):
         pl = self.schema.get("__pylists__", set())
         return (cls, field) in pl or any((c, field) in pl for c in (self.repo.mro(cls) if cls in self.repo.classes else []))
@@ -477,6 +515,10 @@ class Engine:
             return VMat(sel(st.h(field, k), ref.e), sel(st.h(field, k, "rows"), ref.e), sel(st.h(field, k, "cols"), ref.e))
         if k == "refseq":
             return VRefSeq(sel(st.h(field, k), ref.e), sel(st.h(field, k, "len"), ref.e), t.cls)
+        if k == "optrefseq":
+            return VRefSeq(sel(st.h(field, k), ref.e), sel(st.h(field, k, "len"), ref.e), t.cls, none=sel(st.h(field, k, "none"), ref.e))
+        if k == "namemap":
+            return VNameMap(sel(st.h(field, k), ref.e), sel(st.h(field, k, "len"), ref.e), sel(st.h(field, k, "names"), ref.e), t.cls)
         if k == "refset":
             return VOpaque(("refset", field, ref))
         if k == "fun":
@@ -535,6 +577,25 @@ class Engine:
             st.set_h(field, k, "cols", z3.Store(st.h(field, k, "cols"), ref.e, v.cols))
         elif k == "pyobj":
             st.heap[("pyobj", field, str(ref.e))] = v
+        elif k == "namemap":
+            st.set_h(field, k, "", z3.Store(st.h(field, k), ref.e, v.arr))
+            st.set_h(field, k, "len", z3.Store(st.h(field, k, "len"), ref.e, v.len))
+            st.set_h(field, k, "names", z3.Store(st.h(field, k, "names"), ref.e, v.names))
+        elif k == "optrefseq":
+            if isinstance(v, VNone):
+                st.set_h(field, k, "none", z3.Store(st.h(field, k, "none"), ref.e, z3.BoolVal(True)))
+            else:
+                if isinstance(v, VTuple):
+                    a_ = z3.K(I, NULL)
+                    for q_, it_ in enumerate(v.items):
+                        a_ = z3.Store(a_, q_, it_.e)
+                    v = VRefSeq(a_, z3.IntVal(len(v.items)))
+                st.set_h(field, k, "", z3.Store(st.h(field, k), ref.e, v.arr))
+                st.set_h(field, k, "len", z3.Store(st.h(field, k, "len"), ref.e, v.len))
+                st.set_h(field, k, "none", z3.Store(st.h(field, k, "none"), ref.e, z3.BoolVal(False)))
+        elif k == "refseq":
+            st.set_h(field, k, "", z3.Store(st.h(field, k), ref.e, materialise(v.arr, field) if isinstance(v.arr, FnArr) else v.arr))
+            st.set_h(field, k, "len", z3.Store(st.h(field, k, "len"), ref.e, v.len))
         else:
             raise Unsupported("write field kind " + k)
 
@@ -824,6 +885,8 @@ class Engine:
             return VMat(FnArr(lambda i_: FnArr(lambda j_: base.arr[j_][i_])), base.cols, base.rows)
         if isinstance(base, VRefSeq) and n.attr == "values":
             return VBound(base, "values")
+        if isinstance(base, VNameMap) and n.attr in ("values", "get", "items", "keys"):
+            return VBound(base, n.attr)
         raise Unsupported("attr " + ast.unparse(n))
 
     def ev_UnaryOp(self, n, st):
@@ -843,6 +906,8 @@ class Engine:
             return z3.BoolVal(bool(v.s))
         if isinstance(v, VDict):
             return z3.BoolVal(bool(v.d))
+        if isinstance(v, VNameMap):
+            return v.len > 0
         if isinstance(v, VTuple):
             return z3.BoolVal(bool(v.items))
         if isinstance(v, (VSeq, VRefSeq)):
@@ -925,7 +990,22 @@ class Engine:
         conj = []
         for op, rn in zip(n.ops, n.comparators):
             right = self.ev(rn, st)
+            if isinstance(op, (ast.In, ast.NotIn)) and isinstance(right, VTuple) and isinstance(left, VNum) and all(isinstance(q_, VNum) for q_ in right.items):
+                c = z3.Or([z3.BoolVal(False)] + [num_pair(left, q_)[0] == num_pair(left, q_)[1] for q_ in right.items])
+                conj.append(c if isinstance(op, ast.In) else z3.Not(c))
+                left = right
+                continue
+            if isinstance(op, (ast.In, ast.NotIn)) and isinstance(right, VNameMap) and isinstance(left, VName):
+                c = right.has(left.e)
+                conj.append(c if isinstance(op, ast.In) else z3.Not(c))
+                left = right
+                continue
             if isinstance(op, (ast.Is, ast.IsNot)):
+                if isinstance(right, VNone) and isinstance(left, VName):
+                    c = left.e == NAME_NONE
+                    conj.append(c if isinstance(op, ast.Is) else z3.Not(c))
+                    left = right
+                    continue
                 if isinstance(right, VNone) and isinstance(left, (VStr, VLib)):
                     c = z3.BoolVal(False)
                 elif isinstance(right, VNone):
@@ -934,6 +1014,8 @@ class Engine:
                     elif isinstance(left, VRef):
                         c = left.e == NULL
                     elif isinstance(left, (VOptNum, VOptSeq)):
+                        c = left.none
+                    elif isinstance(left, VRefSeq):
                         c = left.none
                     elif isinstance(left, VCallRef):
                         c = left.kind == 0
@@ -984,6 +1066,10 @@ class Engine:
                 return VTuple(base.items[lo:hi])
             i = z3.simplify(self.ev(n.slice, st).e).as_long()
             return base.items[i]
+        if isinstance(base, VMat) and not isinstance(n.slice, (ast.Slice, ast.Tuple)):
+            r_ = self.ev(n.slice, st).e
+            self.oblige("pre@row-index:" + ast.unparse(n), st, z3.And(0 <= r_, r_ < base.rows))
+            return VSeq(FnArr(lambda k_: base.arr[r_][k_]), base.cols)
         if isinstance(base, (VSeq, VRefSeq)):
             if isinstance(n.slice, ast.Slice):
                 if n.slice.step is not None:
@@ -1010,7 +1096,14 @@ class Engine:
                     args.append(VStar(sv))
             else:
                 args.append(self.ev(a, st))
-        kw = {k.arg: self.ev(k.value, st) for k in n.keywords}
+        kw = {}
+        for k in n.keywords:
+            if k.arg is None:                    # **mapping with concrete keys
+                o = self.ev(k.value, st)
+                if isinstance(o, VDict) and not (isinstance(f, VLib) and f.name == "dict"):
+                    kw.update(o.d)
+                continue
+            kw[k.arg] = self.ev(k.value, st)
         if isinstance(f, VLib) and f.name == "super":
             if args:
                 return VSuper(args[1], args[0].name[6:])
@@ -1030,6 +1123,16 @@ class Engine:
         if isinstance(f, VCallRef):
             self.oblige("pre@callable:" + ast.unparse(n)[:40], st, f.kind == 2)
             return self.read_field(st, VRef(f.owner, self.callref_owner_cls), self.callref_owner_field)
+        if isinstance(f, VBound) and isinstance(f.recv, VNameMap):
+            m_ = f.recv
+            if f.name == "values":
+                return VRefSeq(m_.arr, m_.len, m_.cls)
+            if f.name == "get":
+                nm = args[0]
+                q = fresh("pos", I)
+                st.assume(z3.Implies(m_.has(nm.e), z3.And(0 <= q, q < m_.len, m_.names[q] == nm.e)))
+                return VRef(z3.If(m_.has(nm.e), m_.arr[q], NULL), m_.cls)
+            raise Unsupported("dict method " + f.name)
         if isinstance(f, VBound) and isinstance(f.recv, VStr):
             return VStr("<formatted>")
         if isinstance(f, VBound) and isinstance(f.recv, VOpaque):
@@ -1191,6 +1294,7 @@ class Engine:
     def exec_stmt(self, stmt, s):
         snap = s.copy()
         mark = len(self.obligations)
+        c0 = _ctr[0]
         self._cur = s
         try:
             return self.st(stmt, s)
@@ -1200,13 +1304,16 @@ class Engine:
             if getattr(self, "_inline_depth", 0) > 0:
                 raise                      # inside an inlined callee: the fork is taken at the caller's statement
             del self.obligations[mark:]
-            outs = []
+            outs, hi = [], _ctr[0]
             for choice in (True, False):
                 s2 = snap.copy()
                 s2.assume(fr.cond if choice else z3.Not(fr.cond))
                 s2.decisions[fr.key] = choice
+                _ctr[0] = c0          # regenerate the same fresh constants as the aborted run (the decision condition mentions them)
                 if self.feasible(s2):
                     outs.extend(self.exec_stmt(stmt, s2))
+                hi = max(hi, _ctr[0])
+            _ctr[0] = hi
             return outs
 
     def st(self, n, st):
@@ -1310,6 +1417,20 @@ class Engine:
                 self.call_method(st, base, t.attr, [v], {}, kind="setter", node=t)
             else:
                 raise Unsupported(f"store to {base.cls}.{t.attr}")
+        elif isinstance(t, ast.Subscript) and isinstance(self.ev(t.value, st), VNameMap):
+            m_ = self.ev(t.value, st)
+            nm = self.ev(t.slice, st)
+            if isinstance(v, VDict):       # a dict literal stored as a record object of the map's entry class
+                r = self.alloc(st, "entry", m_.cls)
+                for k_, val_ in v.d.items():
+                    if self.ftype(m_.cls, k_) is not None:
+                        self.write_field(st, r, k_, val_)
+                v = r
+            self.oblige("pre@dict-insert-new-key:" + ast.unparse(t), st, z3.Not(m_.has(nm.e)))       # overwrite of an existing key is not modelled
+            new = VNameMap(z3.Store(m_.arr, m_.len, v.e), m_.len + 1, z3.Store(m_.names, m_.len, nm.e), m_.cls)
+            self.store(t.value, new, st)
+        elif isinstance(t, ast.Subscript) and isinstance(t.slice, ast.Constant) and isinstance(t.slice.value, str) and isinstance(self.ev(t.value, st), VRef):
+            self.write_field(st, self.ev(t.value, st), t.slice.value, v)
         elif isinstance(t, ast.Subscript) and isinstance(self.ev(t.value, st), VTuple):
             idx = z3.simplify(self.ev(t.slice, st).e)
             if not z3.is_int_value(idx):
@@ -1317,6 +1438,14 @@ class Engine:
             self.ev(t.value, st).items[idx.as_long()] = v
         elif isinstance(t, ast.Subscript) and isinstance(self.ev(t.value, st), VDict):
             self.ev(t.value, st).d[self.key_of(self.ev(t.slice, st))] = v
+        elif isinstance(t, ast.Subscript) and isinstance(t.slice, ast.Tuple) and len(t.slice.elts) == 2 and isinstance(t.slice.elts[1], ast.Slice) and isinstance(self.ev(t.value, st), VMat):
+            M_ = self.ev(t.value, st)      # M[r, :] = v   (row assignment)
+            r_ = self.ev(t.slice.elts[0], st).e
+            self.oblige("pre@row-store:" + ast.unparse(t), st, z3.And(0 <= r_, r_ < M_.rows))
+            if isinstance(v, VSeq):
+                self.oblige("pre@row-store-shape:" + ast.unparse(t), st, v.len == M_.cols)
+            rowv = (lambda j_: v.arr[j_]) if isinstance(v, VSeq) else (lambda j_: v.real())
+            self.store(t.value, VMat(FnArr(lambda i_: FnArr(lambda j_: z3.If(i_ == r_, rowv(j_), M_.arr[i_][j_]))), M_.rows, M_.cols), st)
         elif isinstance(t, ast.Subscript) and isinstance(t.slice, ast.Slice):
             seq = self.ev(t.value, st)
             lo = self.norm_index(self.ev(t.slice.lower, st).e, seq.len) if t.slice.lower is not None else z3.IntVal(0)
@@ -1404,6 +1533,56 @@ class Engine:
             return VBool(fresh(name, B))
         return v
 
+    def callee_effects(self, body, depth=0, seen=None):
+        """heap fields a loop body may modify through calls: the `modifies` of every registered contract whose method/setter name is
+        called or assigned in the body, plus (recursively, by name, over all loaded classes) the fields assigned by inlined callees.
+        Over-approximation: all of these are havocked for ALL objects at the loop head."""
+        seen = set() if seen is None else seen
+        out = set()
+        names = set()
+        for x in ast.walk(ast.Module(body=list(body), type_ignores=[])):
+            if isinstance(x, ast.Call) and isinstance(x.func, ast.Attribute):
+                names.add((x.func.attr, None))
+            elif isinstance(x, ast.Attribute) and isinstance(x.ctx, ast.Store):
+                names.add((x.attr, "setter"))
+                for cls_, flds in self.schema.items():
+                    if isinstance(flds, dict) and x.attr in flds and not (isinstance(x.value, ast.Name) and x.value.id == "self"):
+                        t = flds[x.attr]
+                        out |= {(x.attr, t.kind, part) for part in HEAP_SORTS.get(t.kind, {})}
+            elif isinstance(x, ast.Attribute) and isinstance(x.ctx, ast.Load):
+                names.add((x.attr, "getter"))
+            elif isinstance(x, ast.Subscript) and isinstance(x.ctx, ast.Store) and isinstance(x.slice, ast.Constant) and isinstance(x.slice.value, str):
+                for cls_, flds in self.schema.items():
+                    if isinstance(flds, dict) and x.slice.value in flds:
+                        t = flds[x.slice.value]
+                        out |= {(x.slice.value, t.kind, part) for part in HEAP_SORTS.get(t.kind, {})}
+        for (cls_, nm, kind), c in list(self.contracts.items()):
+            if (nm, kind) in names or (kind is None and (nm, None) in names):
+                if not c.inline:
+                    out |= {tuple(m_[:3]) for m_ in c.modifies}
+        if depth < 3:
+            for nm, kind in names:
+                if (nm, kind) in seen:
+                    continue
+                seen.add((nm, kind))
+                for cname in list(self.repo.classes):
+                    c = self.contracts.get((cname, nm, kind))
+                    if c is not None and not c.inline:
+                        continue
+                    for f in self.repo.classes[cname][1].body:
+                        if isinstance(f, ast.FunctionDef) and f.name == nm:
+                            is_set = any(ast.unparse(d).endswith(".setter") for d in f.decorator_list)
+                            is_get = any(ast.unparse(d) == "property" for d in f.decorator_list)
+                            if (kind == "setter") != is_set or (kind == "getter") != is_get:
+                                continue
+                            loc, fld = self.assigned(f.body)
+                            for fl in fld:
+                                for cls2, flds in self.schema.items():
+                                    if isinstance(flds, dict) and fl in flds:
+                                        out |= {(fl, flds[fl].kind, part) for part in HEAP_SORTS.get(flds[fl].kind, {})}
+                            out |= self.callee_effects(f.body, depth + 1, seen)
+        return {m_ for m_ in out if m_[1] in HEAP_SORTS}
+
     def havoc_for_loop(self, st, body, extra_locals=()):
         loc, fld = self.assigned(body)
         h = st.copy()
@@ -1412,10 +1591,15 @@ class Engine:
                 h.locals[x] = self.havoc_like(h.locals[x], x)
         me = h.locals.get("self")
         for x in fld:
-            t = self.ftype(me.cls, x)
+            t = self.ftype(me.cls, x) if me is not None else None
+            if t is None or t.kind not in HEAP_SORTS:
+                continue
             for part, srt in HEAP_SORTS[t.kind].items():
                 old = h.h(x, t.kind, part)
                 h.set_h(x, t.kind, part, z3.Store(old, me.e, fresh(f"self.{x}.{part}", srt.range())))
+        for (field, kind, part) in sorted(self.callee_effects(body) | set(getattr(self, "loop_havoc", []))):
+            old = h.h(field, kind, part)
+            h.set_h(field, kind, part, fresh(f"H_{field}", old.sort()))
         return h
 
     def st_While(self, n, st):
@@ -1534,7 +1718,7 @@ class Engine:
         me = None
         if not static:
             me = VRef(z3.Const("self", Ref), cls)
-            st.assume(me.e != NULL)
+            st.assume(z3.And(me.e != NULL, ALIVE0(me.e)))
             st.locals[params[0]] = me
         args = {}
         if init:
